@@ -19,6 +19,7 @@ func init() {
 }
 
 func runC14(r *engine.Run) {
+	r.Rule("FRESH-pathbuf", "see C01: Insert copies the caller's path before it builds nodes from it: leaves and extensions keep sub-slices of the path, and a caller that reuses its key buffer would change stored and pending nodes behind their hashes")
 	r.Rule("AGREE-snapshot", "see C03: MergeMPTChanges hands the merge the root, changes, deletes and start root of ONE GetChanges call on the child: a root read earlier than the change set installs a root whose nodes were never handed over - the saved root cannot be read back")
 	r.Rule("WHO-collect", "see C04: a node merged from a donor store is stored under its own hash (GetHashBytes of the node), never under the key the donor filed it under")
 	r.Rule("FRESH-decodebuf", "CreateNode hands the node decoders bytes of its own (the result of io/ioutil.ReadAll, a fresh slice), never a view of the reader's memory (bytes.Buffer.Next/Bytes): the decoders keep sub-slices of their input as the node's prefix, path and keys - the inputs of its hash -, and a caller's receive buffer is reused while the node lives")
@@ -64,6 +65,7 @@ func runC14(r *engine.Run) {
 	freshDecodeBuf(r, "FRESH-decodebuf")
 	agreeMergeSnapshot(r, "AGREE-snapshot")
 	whoCollect(r)
+	freshPathBuf(r, "FRESH-pathbuf")
 }
 
 func keyOwnHash(r *engine.Run) {
